@@ -12,13 +12,13 @@ Require Import FV.Base.Util FV.Base.F64 FV.Base.PyVal FV.C01.Model.
 (* ------------------------------------------------------------------ errors *)
 (* SECoP error class names as they appear in an error report *)
 Inductive ecls := NoSuchModule | NoSuchParameter | NoSuchCommand | ReadOnly | WrongType | RangeError
-                | HardwareError | InternalError.
+                | HardwareError | InternalError | ProtocolError.
 
 Definition ecls_eqb (a b : ecls) : bool :=
   match a, b with
   | NoSuchModule, NoSuchModule | NoSuchParameter, NoSuchParameter | NoSuchCommand, NoSuchCommand
   | ReadOnly, ReadOnly | WrongType, WrongType | RangeError, RangeError | HardwareError, HardwareError
-  | InternalError, InternalError => true
+  | InternalError, InternalError | ProtocolError, ProtocolError => true
   | _, _ => false
   end.
 
@@ -106,24 +106,30 @@ Definition s_min : str := [95; 109; 105; 110]%N.                       (* _min *
 Definition s_max : str := [95; 109; 97; 120]%N.                        (* _max *)
 Definition s_target : str := [116; 97; 114; 103; 101; 116]%N.          (* target *)
 
-Definition check_limits (pn : str) (v : pyval) (c : cache) : res unit :=
+(* try: min_, max_ = getattr(self, pname + '_limits'); if not min_ <= value <= max_: raise RangeError
+   except AttributeError: pass          -- no return: <p>_min / <p>_max are checked as well (fix e1c174f) *)
+Definition check_tuple (pn : str) (v : pyval) (c : cache) : res unit :=
   match getp c (pn ++ s_limits) with
   | Some (PTuple [lo; hi]) =>
-      (* if not min_ <= value <= max_: raise RangeError ; return *)
       py_le lo v >>= fun b1 =>
       if b1 then py_le v hi >>= fun b2 => if b2 then Ok tt else Err ERange
       else Err ERange
   | Some _ => Err EValue                                  (* unpacking fails *)
-  | None =>
-      let lo := match getp c (pn ++ s_min) with Some x => x | None => PFloat (finf true) end in
-      let hi := match getp c (pn ++ s_max) with Some x => x | None => PFloat (finf false) end in
-      py_gt lo hi >>= fun inv =>
-      if inv then Err ERange else
-      py_lt v lo >>= fun below =>
-      if below then Err ERange else
-      py_gt v hi >>= fun above =>
-      if above then Err ERange else Ok tt
+  | None => Ok tt
   end.
+
+Definition check_minmax (pn : str) (v : pyval) (c : cache) : res unit :=
+  let lo := match getp c (pn ++ s_min) with Some x => x | None => PFloat (finf true) end in
+  let hi := match getp c (pn ++ s_max) with Some x => x | None => PFloat (finf false) end in
+  py_gt lo hi >>= fun inv =>
+  if inv then Err ERange else
+  py_lt v lo >>= fun below =>
+  if below then Err ERange else
+  py_gt v hi >>= fun above =>
+  if above then Err ERange else Ok tt.
+
+Definition check_limits (pn : str) (v : pyval) (c : cache) : res unit :=
+  check_tuple pn v c >>= fun _ => check_minmax pn v c.
 
 (* ------------------------------------------------------------------ user code: hooks and driver *)
 Inductive hres := HNone | HStop | HRaise (e : err).       (* returns falsy / returns truthy / raises *)
@@ -313,7 +319,7 @@ Definition do_cmd (cm : command) (c : cache) (rq : request) : out :=
 (* Dispatcher.handle_do + _execute_command *)
 Definition handle_do (md : mdesc) (c : cache) (rq : request) : out :=
   match rq_acc rq with
-  | None => fail c EPy [] []                               (* modulename, cmd = specifier.split(':', 1) *)
+  | None => fail c (ESecop ProtocolError) [] []            (* if ':' not in specifier: raise ProtocolError (fix 8821998) *)
   | Some ename =>
       if negb (str_eqb (rq_mod rq) (md_name md)) then fail c (ESecop NoSuchModule) [] [] else
       match lookup_export md ename with
